@@ -67,8 +67,21 @@ package main
 //@   at encode#1 before stop
 //@   at encode#2 before assert [C28.not_ready_coordinator_names_nobody] as(arg0, "*kmsg.FindCoordinatorResponse").NodeID == -1 && as(arg0, "*kmsg.FindCoordinatorResponse").ErrorCode == 7 && as(arg0, "*kmsg.FindCoordinatorResponse").Host == "" && len(as(arg0, "*kmsg.FindCoordinatorResponse").Coordinators) == 0
 //@   at encode#2 before stop
-//@   at NewPtrProduceResponse#1 before stop
-//@   at NewPtrFetchResponse#1 before stop
+// (C27) not-ready produce / fetch replies: one REQUEST_TIMED_OUT entry per requested partition, under its topic.
+//@   ghost gn int = 0
+//@   loop 3 invariant rt.Topic == topic.Topic
+//@   loop 5 invariant rt.Topic == topic.Topic && rt.TopicID == topic.TopicID
+//@   at append#2 before assert [C27.not_ready_produce_entry_per_partition] len(arg1) == 1 && arg1[0].Partition == part.Partition && arg1[0].ErrorCode == 7 && rt.Topic == topic.Topic
+//@   at append#2 before set gn = gn + 1
+//@   at loopstep#3 assert [C27.not_ready_produce_entry_once_per_partition] gn == 1
+//@   at append#3 before assert [C27.not_ready_produce_topic_entry] len(arg1) == 1 && arg1[0].Topic == topic.Topic
+//@   at encode#3 before stop
+//@   at append#4 before assert [C27.not_ready_fetch_entry_per_partition] len(arg1) == 1 && arg1[0].Partition == part.Partition && arg1[0].ErrorCode == 7 && rt.Topic == topic.Topic && rt.TopicID == topic.TopicID
+//@   at append#4 before set gn = gn + 1
+//@   at loopstep#5 assert [C27.not_ready_fetch_entry_once_per_partition] gn == 1
+//@   at append#5 before assert [C27.not_ready_fetch_topic_entry] len(arg1) == 1 && arg1[0].Topic == topic.Topic && arg1[0].TopicID == topic.TopicID
+//@   at encode#4 before stop
+//@   at NewPtrListOffsetsResponse#1 before stop
 
 // loadMetadata: which cluster metadata the reply is built from.
 //  - request without topic ids: exactly what the store returns for the requested names, in request order (nil names
